@@ -11,7 +11,7 @@ from common import cx, crash_result
 from drive import Result
 
 RULE = ("Hypothesis generates call histories: 1-3 initial sites (1-3 orbitals, 1-3 spins), then 3-14 operations drawn from addSite (new "
-        "label), addTerm (valid; unknown label / orbital / spin out of range at a chosen position; zero amplitude; orders 2,4,6), every "
+        "label), addTerm (valid; unknown label / orbital / spin out of range at a chosen position; zero amplitude; amplitudes from 5e-324 to 1e30; orders 2,4,6), every "
         "preset with arguments inside and outside its documented domain (unknown label, 1-orbital CoulombP, non-2-spin sites for "
         "Magnetization/SzSz/SS, mismatching site shapes, equal spins/orbitals for Spinflip/PairHopping, out-of-range hopping indices), "
         "getSite(known/unknown), getTerms(order), copy.  After every step the stored terms are dumped and compared with a Python model: "
@@ -26,8 +26,8 @@ CONFIG = {
     "quick": {"flavours": ["real"], "shards": 8, "examples": 1000, "min_nontrivial": 300, "budget_s": 120},
     "thorough": {"flavours": ["real", "complex"], "shards": 16, "examples": 4000, "min_nontrivial": 5000, "budget_s": 3000},
 }
-REQUIRED_CLASSES = {"quick": ["rejected-term", "rejected-preset", "zero-amplitude", "getsite-known", "getsite-unknown", "copy", "order-6"],
-                    "thorough": ["rejected-term", "rejected-preset", "zero-amplitude", "getsite-known", "getsite-unknown", "copy", "order-6"]}
+REQUIRED_CLASSES = {"quick": ["rejected-term", "rejected-preset", "zero-amplitude", "getsite-known", "getsite-unknown", "copy", "order-6", "extreme-amplitude"],
+                    "thorough": ["rejected-term", "rejected-preset", "zero-amplitude", "getsite-known", "getsite-unknown", "copy", "order-6", "extreme-amplitude"]}
 UNKNOWN = ["nope", "A ", "", "zz", "B2"]
 
 
@@ -41,6 +41,10 @@ def term_op(draw, sites, cplx):
     ms = modes(sites)
     ops = [[draw(st.integers(0, 1)), *draw(st.sampled_from(ms))] for _ in range(n)]
     v = draw(gen.camp(cplx, nonzero=True))
+    extreme = draw(st.sampled_from([0, 0, 0, 0, 0, 1]))
+    if extreme:
+        # any non-zero amplitude is a term, however small or large (parameters in SI units, tails of hopping tables, tiny fields)
+        v = [draw(st.sampled_from([5e-324, 1e-300, 1e-40, 1e-19, 1e-16, 2.2e-16, 3e-15, 1e-9, 1e30])) * draw(st.sampled_from([1.0, -1.0])), 0.0]
     bad = draw(st.sampled_from(["ok", "ok", "ok", "label", "orbital", "spin", "zero", "zero+bad"]))
     pos = draw(st.integers(0, n - 1))
     if bad in ("label",):
@@ -57,7 +61,7 @@ def term_op(draw, sites, cplx):
         v = [0.0, 0.0]
         site = [s for s in sites if s[0] == ops[pos][1]][0]
         ops[pos][3] = site[2]
-    return {"op": "term", "v": v, "ops": ops, "bad": bad}
+    return {"op": "term", "v": v, "ops": ops, "bad": bad, "extreme": bool(extreme) and bad == "ok"}
 
 
 @st.composite
@@ -271,6 +275,8 @@ def execute(case, ctx):
                         return fail("%s: stored terms after a valid addTerm are not 'previous + this term'" % label, "term-storage")
                     if n == 6:
                         classes.append("order-6")
+                    if op.get("extreme"):
+                        classes.append("extreme-amplitude")
                     if rejected_before:
                         nontrivial = True
         elif op["op"] == "preset":
